@@ -88,6 +88,13 @@ _text = st.one_of(
 )
 
 
+def _weighted(*pairs):
+    """one_of with weights (Hypothesis' one_of drops repeated branches, so repetition does not weight)."""
+    strats = [s_ for _w, s_ in pairs]
+    index = [i for i, (w, _s) in enumerate(pairs) for _ in range(w)]
+    return st.sampled_from(index).flatmap(lambda i: strats[i])
+
+
 def _ints(dt):
     lo, hi = _INT_RANGES[dt]
     edges = sorted({v for v in (lo, lo + 1, lo + 2, lo + 3, hi, hi - 1, hi - 2, hi - 3, 0, 1, 2, 3, -1, -2) if lo <= v <= hi})
@@ -98,7 +105,8 @@ def _scalar(dt):
     if dt in _INT_RANGES:
         return _ints(dt)
     if dt in _FLOAT_WIDTH:
-        return st.floats(width=_FLOAT_WIDTH[dt], allow_nan=True, allow_infinity=True)
+        f = st.floats(width=_FLOAT_WIDTH[dt], allow_nan=True, allow_infinity=True)
+        return _weighted((7, f), (1, st.just(float("nan"))))  # NaN is the unset marker of reals: make it common
     if dt in _BOOLS:
         return st.booleans()
     return _text
@@ -114,9 +122,9 @@ def _rotate(t):
 def _entries(value, lo=1, hi=12, none_weight=1):
     """Lists (one entry per object) of ``value`` with any pattern of None (an all-None list now and then)."""
     some = st.tuples(
-        value, st.lists(st.one_of(*([st.none()] * none_weight + [value] * 3)), min_size=lo - 1, max_size=hi - 1), st.integers(0, 11)
+        value, st.lists(_weighted((none_weight, st.none()), (3, value)), min_size=lo - 1, max_size=hi - 1), st.integers(0, 11)
     ).map(_rotate)
-    return st.one_of(*([some] * 15 + [st.lists(st.none(), min_size=lo, max_size=4)]))
+    return _weighted((15, some), (1, st.lists(st.none(), min_size=lo, max_size=4)))
 
 
 _FORMS = st.sampled_from(["l", "l", "a", "a", "t"])
@@ -164,7 +172,7 @@ def _col_scalar_seq(dt):
             "cls": st.just("scalar+seq"),
             "dt": st.just(dt),
             "ndim": st.just(1),
-            "e": st.lists(st.one_of(st.none(), _scalar(dt), _seq(dt), _seq(dt)), min_size=2, max_size=12),
+            "e": st.lists(_weighted((1, st.none()), (2, _scalar(dt)), (3, _seq(dt))), min_size=2, max_size=12),
         }
     )
 
@@ -176,7 +184,7 @@ def _col_inner(dt):
             "cls": st.just("inner-ragged"),
             "dt": st.just(dt),
             "ndim": st.just(1),
-            "e": st.lists(st.one_of(st.none(), rag, rag, _seq(dt)), min_size=1, max_size=8),
+            "e": st.lists(_weighted((2, st.none()), (6, rag), (1, _seq(dt))), min_size=1, max_size=8),
         }
     )
 
@@ -192,7 +200,7 @@ def _col_dict():
                 "cls": st.just("dict"),
                 "dt": st.just(vdt),
                 "pad": st.sampled_from([0, 0, 0, 0, 0, 0, 70000]),
-                "e": st.one_of(*([st.lists(d, min_size=1, max_size=12)] * 9 + [_entries(d)])),
+                "e": _weighted((9, st.lists(d, min_size=1, max_size=12)), (1, _entries(d))),
             }
         )
 
@@ -252,8 +260,8 @@ def column_strategy(classes=None):
             s = _col_mixed()
         else:
             s = _col_mixed_seq()
-        opts.extend([s] * w)
-    return st.one_of(*opts)
+        opts.append((w, s))
+    return _weighted(*opts)
 
 
 # --------------------------------------------------------------------------------------------
@@ -322,6 +330,11 @@ def _mk_inner_ragged(dt, desc):
     return [tuple(vals), (vals[0],) * (len(vals) + 1)]
 
 
+def _nobj(case, cols):
+    """Number of objects: every generated entry is used at least once (shorter columns are cycled)."""
+    return min(12, max([case["n"]] + [len(c["e"]) for c in cols]))
+
+
 def build_column(col, n):
     """Values (one per object) described by ``col``; entries are cycled to length ``n``."""
     cls, dt, ents = col["cls"], col["dt"], col["e"]
@@ -356,7 +369,10 @@ def build_column(col, n):
 
 
 def _is_seq(v):
-    return isinstance(v, (list, tuple, _np().ndarray))
+    """list / tuple / ndarray with at least one dimension (a 0-d array is a boxed scalar)."""
+    if isinstance(v, _np().ndarray):
+        return v.ndim >= 1
+    return isinstance(v, (list, tuple))
 
 
 def _regular(v):
@@ -474,10 +490,13 @@ def known_shape(values, route):
         for v in values:
             if v is None:
                 continue
-            flat = np.array(v).ravel() if _is_seq(v) else [v]
-            for x in flat:
-                if isinstance(x, (float, np.floating)) and math.isfinite(x) and float(x) != math.floor(float(x)):
+            if _is_seq(v):
+                # rows are stacked with np.array() first: one real row makes the stack float64, which cannot hold
+                # the int64 placeholder, before everything is cast back to the first row's integer type
+                if np.array(v).dtype.kind == "f":
                     return SIG_CAST_FIRST
+            elif isinstance(v, (float, np.floating)) and math.isfinite(v) and float(v) != math.floor(float(v)):
+                return SIG_CAST_FIRST
     return None
 
 
@@ -570,6 +589,8 @@ def _flatten(x):
 def norm_entry(v, among_sequences):
     """Documented normal form of one entry of a column."""
     np = _np()
+    if isinstance(v, np.ndarray) and v.ndim == 0:
+        v = v[()]
     if v is None:
         return UNSET
     if isinstance(v, dict):
@@ -681,7 +702,7 @@ def _class_labels(out, col, values, route):
     tags = []
     if f["none"]:
         tags.append("none")
-    if _db_jagged(values) or route == "jagged":
+    if route == "jagged" or (route == "db" and _db_jagged(values)):
         tags.append("ragged")
     np = _np()
     if any(isinstance(v, np.ndarray) and v.ndim > 1 for v in values) or any(
@@ -786,7 +807,10 @@ def _drop(group):
 
 
 def sentinel_strategy(tier):
-    return st.fixed_dictionaries({"col": column_strategy(["scalar", "fixed", "mixed"]), "n": st.integers(1, 12)})
+    general = column_strategy(["scalar", "fixed", "mixed"])
+    # equally shaped arrays of the kinds that have a placeholder (rows that are partly / entirely placeholder)
+    arrays = st.sampled_from(["py:float", "float64", "py:int", "int8", "int32", "uint16"]).flatmap(_col_fixed)
+    return st.fixed_dictionaries({"col": _weighted((3, general), (1, arrays)), "n": st.integers(1, 12)})
 
 
 def _object_array(values):
@@ -803,7 +827,7 @@ def sentinel_execute(case):
 
     out = Out()
     col = case["col"]
-    values = build_column(col, case["n"])
+    values = build_column(col, _nobj(case, [col]))
     if col["cls"] == "fixed":
         # documented input: None or "a valid, database-storable numpy array" of one shape
         values = [v if v is None else np.array(v) for v in values]
@@ -855,7 +879,7 @@ def sentinel_execute(case):
 
 def pack_strategy(tier):
     return st.fixed_dictionaries(
-        {"col": column_strategy(), "n": st.integers(1, 12), "route": st.sampled_from(["db", "db", "object", "jagged"])}
+        {"col": column_strategy(), "n": st.integers(1, 12), "route": st.sampled_from(["db", "db", "object", "object", "jagged"])}
     )
 
 
@@ -889,7 +913,7 @@ def pack_execute(case):
 
     out = Out()
     col, route = case["col"], case["route"]
-    values = build_column(col, case["n"])
+    values = build_column(col, _nobj(case, [col]))
     f = features(values)
     if route == "jagged" and (f["dict"] or not f["seq"] or any(isinstance(v, str) for v in values)):
         route = "db"
@@ -1038,7 +1062,7 @@ def _l1_roundtrip(out, case, columns, flagvals):
     from armi.reactor.flags import Flags
 
     cls = _probe()
-    n = case["n"]
+    n = len(columns[0][2])
     for pd in cls.pDefs:
         pd.assigned = parameters.NEVER
     comps = [cls("o%d" % i) for i in range(n)]
@@ -1104,8 +1128,8 @@ def _l1_roundtrip(out, case, columns, flagvals):
 
 def l1_execute(case):
     out = Out()
-    n = case["n"]
     cols = case["cols"][:1] if case["single"] else case["cols"]
+    n = _nobj(case, cols)
     columns = []
     alltags = set()
     for i, col in enumerate(cols):
@@ -1150,6 +1174,121 @@ def l1_execute(case):
             out.rejected = nrej == len(columns)
             out.check(nrej > 0, "l1_database/write-fails-only-together",
                       lambda: "columns are accepted one by one but refused together: %r" % ([c[2] for c in columns],))
+    return out
+
+
+# --------------------------------------------------------------------------------------------
+# part l2_reactor: the same columns on real block / component / assembly / core parameters, writeToDB -> load
+
+_L2_TARGETS = [
+    ("block", "mgFlux"), ("comp", "pinNum"), ("block", "pinMgFluxes"), ("assem", "powerDecay"), ("block", "linPowByPin"),
+    ("core", "beta"), ("block", "reactionRates"), ("comp", "detailedNDens"), ("block", "chi"), ("comp", "pinPercentBu"),
+    ("block", "betad"), ("assem", "detailedNDens"), ("block", "axialPowerProfile"), ("comp", "massHmBOL"),
+    ("core", "eigenvalues"), ("core", "betaComponents"),
+]
+
+
+def l2_strategy(tier):
+    from vp.gen import reactor as rg
+
+    return st.fixed_dictionaries(
+        {
+            "spec": rg.reactor_spec(geoms=("hex",), max_rings=2, max_blocks=2, allow_pin_grid=False, allow_holes=False),
+            "col": column_strategy(["scalar", "fixed", "ragged", "scalar+seq", "inner-ragged", "dict"]),
+            "target": st.integers(0, len(_L2_TARGETS) - 1),
+            "compType": st.integers(0, 5),
+            "assignNone": st.booleans(),
+        }
+    )
+
+
+def _path(obj):
+    names = []
+    while obj is not None:
+        names.append(obj.name)
+        obj = obj.parent
+    return "/".join(reversed(names))
+
+
+def _l2_objects(r, level, pick):
+    if level == "core":
+        return [r.core]
+    if level == "assem":
+        objs = list(r.core)
+    elif level == "block":
+        objs = r.core.getBlocks()
+    else:
+        objs = [c for b in r.core.getBlocks() for c in b]
+    types = sorted({type(o).__name__ for o in objs})
+    want = types[pick % len(types)]
+    return [o for o in objs if type(o).__name__ == want]
+
+
+def l2_execute(case):
+    from armi.bookkeeping.db.database import Database
+
+    from vp.gen import reactor as rg
+
+    out = Out()
+    col = case["col"]
+    level, pname = _L2_TARGETS[case["target"]]
+    cs, bp, r = rg.build(case["spec"])
+    objs = _l2_objects(r, level, case["compType"])
+    out.label("level:" + level, "param:" + pname, "objects:%s" % ("1" if len(objs) == 1 else "2-12" if len(objs) <= 12 else ">12"))
+    values = build_column(col, len(objs))
+    if features(values)["placeholder"]:
+        values = avoid_documented_sentinel(values, out)
+    try:
+        for o, v in zip(objs, values):
+            if v is None and not case["assignNone"]:
+                continue
+            o.p[pname] = v
+    except (ValueError, TypeError):
+        out.label("skipped:parameter-setter-refuses")  # e.g. the ndarray setters on ragged nested lists; not the database
+        return out
+    # what the database is given: the values the parameters hold after assignment (setters may convert to arrays)
+    written = [o.p[pname] for o in objs]
+    keys = [_path(o) for o in objs]
+    tags = _class_labels(out, col, written, "db")
+    out.nontrivial = len(tags) >= 2 and len(objs) >= 2
+    if _excluded(out, col, written, "db", case):
+        return out
+    f = features(written)
+    _attempt(out, col, f)
+    fn = "c05_l2_%d.h5" % os.getpid()
+    if os.path.exists(fn):
+        os.remove(fn)
+    db = Database(fn, "w")
+    db.open()
+    try:
+        try:
+            db.writeToDB(r)
+        except Exception:  # noqa: BLE001  (any error while writing is a rejection)
+            out.rejected = True
+            out.label("rejected:%s%s" % (col["cls"], "+none" if f["none"] else ""))
+            return out
+        try:
+            r2 = db.load(0, 0, cs=cs, bp=bp)
+        except Exception as exc:  # noqa: BLE001
+            _read_failure(out, "l2_reactor", written, "db", exc)
+            return out
+        loaded = {}
+        for o in [r2.core] + list(r2.core) + r2.core.getBlocks() + [c for b in r2.core.getBlocks() for c in b]:
+            loaded[_path(o)] = o
+        missing = [k for k in keys if k not in loaded]
+        if not out.check(not missing, "l2_reactor/object-missing-after-load", lambda: "objects %r not found after load" % (missing[:3],)):
+            return out
+        read = [loaded[k].p[pname] for k in keys]
+        # an unassigned object contributes the definition's default (0.0 for some shapes' massHmBOL): the column then
+        # mixes kinds through the harness' doing and is judged by numerical equality only
+        defaulted = any(v is None and w is not None for v, w in zip(values, written))
+        if defaulted:
+            out.label("default-filled")
+        _judge(out, "l2_reactor", written, read, "db", strict=not defaulted)
+    finally:
+        db.close(True)
+        if os.path.exists(fn):
+            os.remove(fn)
     return out
 
 
@@ -1249,25 +1388,31 @@ def flags_execute(case):
 
 
 PARTS = [
-    Part("l0_sentinel", sentinel_execute, strategy=sentinel_strategy, budget={"quick": 1500, "thorough": 60000},
+    Part("l0_sentinel", sentinel_execute, strategy=sentinel_strategy, budget={"quick": 1500, "thorough": 40000},
          procs={"quick": 2, "thorough": 8},
          rule="Hypothesis: scalar columns of every int/uint width, float width, bool, str (Python and NumPy scalars), equally "
               "shaped n-d arrays, mixed-kind scalars; any None pattern; layout.replaceNonesWithNonsense -> "
               "replaceNonsenseWithNones in memory; non-trivial = some but not all entries None; oracle: same values, kinds, "
               "unset positions (NaN = unset)"),
-    Part("l0_pack", pack_execute, strategy=pack_strategy, budget={"quick": 3000, "thorough": 120000},
+    Part("l0_pack", pack_execute, strategy=pack_strategy, budget={"quick": 3000, "thorough": 90000},
          procs={"quick": 4, "thorough": 16},
          rule="Hypothesis: columns of 8 classes (scalar, fixed n-d, ragged, scalar among sequences, inner-ragged, dict[str,float], "
               "mixed-kind scalars/sequences) x 18 dtypes x list/tuple/ndarray forms x None patterns; np.array / 1-D object array / "
               "JaggedArray -> packSpecialData -> real h5py dataset + _writeAttrs -> _resolveAttrs -> unpackSpecialData; "
               "non-trivial = column mixes >= 2 of {None, ragged, n-d, non-default dtype, dict, mixed kind}; oracle: documented normal form equal"),
-    Part("l1_database", l1_execute, strategy=l1_strategy, budget={"quick": 2500, "thorough": 100000},
+    Part("l1_database", l1_execute, strategy=l1_strategy, budget={"quick": 2500, "thorough": 70000},
          procs={"quick": 6, "thorough": 16},
          rule="Hypothesis: 1-3 such columns + a Flags column assigned to the parameters of a probe Composite subclass (parameters "
               "with default None / 0 / 0.0 / '' / False, one with FlagSerializer), real Database._writeParams -> HDF5 group -> "
               "Database._readParams into fresh objects; non-trivial as in l0_pack; oracle: documented normal form equal, all-unset "
               "column stores nothing, flag names equal, unassigned parameters keep their default"),
-    Part("flags", flags_execute, strategy=flags_strategy, budget={"quick": 1500, "thorough": 60000},
+    Part("l2_reactor", l2_execute, strategy=l2_strategy, budget={"quick": 240, "thorough": 6000},
+         procs={"quick": 4, "thorough": 16},
+         rule="Hypothesis: a generated hex reactor (vp/gen/reactor.py, <= 7 assemblies x 2 blocks) and one column assigned to a real "
+              "parameter of all blocks / components of one shape class / assemblies / the core (mgFlux, pinMgFluxes, linPowByPin, "
+              "reactionRates, pinNum, detailedNDens with its ndarray setter, powerDecay, beta, ...), Database.writeToDB -> load; "
+              "objects matched by name path; non-trivial as in l0_pack and >= 2 objects; oracle: documented normal form equal"),
+    Part("flags", flags_execute, strategy=flags_strategy, budget={"quick": 1200, "thorough": 30000},
          procs={"quick": 2, "thorough": 8},
          rule="Hypothesis: two fresh armi.utils.flags.Flag classes with 1-70 auto() fields; reader = same class / same order / "
               "permutation / permutation with dropped and added fields (added at definition or through extend()); 1-12 flag values; "
